@@ -327,16 +327,14 @@ private:
         //Skip scanlines if necessary.
         for( y_t y = 0; y < this->_settings._top_left.y; ++y )
         {
-            this->_io_dev.read( reinterpret_cast< byte_t* >( rh.data() )
-                        , this->_scanline_length
-                        );
+            io_error_if( this->_io_dev.read( reinterpret_cast< byte_t* >( rh.data() ), this->_scanline_length ) != static_cast< std::size_t >( this->_scanline_length )
+                       , "Unexpected end of image data." );
         }
 
         for( y_t y = 0; y < view.height(); ++y )
         {
-            this->_io_dev.read( reinterpret_cast< byte_t* >( rh.data() )
-                        , this->_scanline_length
-                        );
+            io_error_if( this->_io_dev.read( reinterpret_cast< byte_t* >( rh.data() ), this->_scanline_length ) != static_cast< std::size_t >( this->_scanline_length )
+                       , "Unexpected end of image data." );
 
             neg( rh.buffer() );
             mirror( rh.buffer() );
